@@ -61,8 +61,17 @@ void h_str_copy_assign(void)
 	/* b = a  (operator= takes its argument by value: the caller copy-constructs it and destroys it afterwards) */
 	struct str tmp; str_ctor_copy(&tmp, &a); str_assign(&b, &tmp); str_dtor(&tmp);
 	__CPROVER_assert(str_size(&b) == n && (n == 0 || b._buffer[k] == a._buffer[k]), "assignment copies the content");
-	STR_INV(&b); STR_INV(&a); FRGV_CANARY();
-	str_dtor(&a); str_dtor(&b); str_dtor(&c);
+	STR_INV(&b); STR_INV(&a);
+	/* a default-constructed string (no buffer) as the source of a copy and of an assignment, and as operand of == */
+	struct str e; memset(&e, 0, sizeof(e)); str_ctor_0(&e, frgv_a);
+	__CPROVER_assert(str_size(&e) == 0, "a default-constructed string is empty");
+	struct str ce; str_ctor_copy(&ce, &e);
+	__CPROVER_assert(str_size(&ce) == 0, "copy of a default-constructed string is empty (nothing is read through its null buffer)");
+	struct str tmp2; str_ctor_copy(&tmp2, &e); str_assign(&b, &tmp2); str_dtor(&tmp2);
+	__CPROVER_assert(str_size(&b) == 0, "assigning a default-constructed string empties the target");
+	__CPROVER_assert(str_op_eq_0(&e, &ce) && (str_op_eq_0(&a, &e) == (n == 0)), "comparison with an empty string");
+	FRGV_CANARY();
+	str_dtor(&a); str_dtor(&b); str_dtor(&c); str_dtor(&e); str_dtor(&ce);
 }
 void h_str_resize(void)
 {
